@@ -342,5 +342,8 @@ pub fn run(p: &Params) -> Run {
         let joined = gen_content(&mut rng, 8, i % 4 == 0);
         check_join(&mut run, &main, &joined);
     }
+    // the command-line program itself on 1-4 files in command-line order, all formats (oracle only)
+    let mut crng = Rng::new(p.seed ^ 0xC12C11);
+    crate::cli::batch_stream(&mut run, &mut crng, p.n(45, 600));
     run
 }
